@@ -424,6 +424,13 @@ impl Ctx {
         if self.stopped() {
             return;
         }
+        // the per-checker counts in props/*.rs are base values; both tiers scale them
+        // (fixed work: the scale is a constant, not a time budget)
+        let scale = std::env::var("NSV_CASE_SCALE").ok().and_then(|s| s.parse::<u64>().ok()).unwrap_or(match self.cfg.tier {
+            Tier::Quick => 6,
+            Tier::Thorough => 2,
+        });
+        let total_cases = total_cases * scale;
         let per = (total_cases / self.cfg.nshards as u64).max(1) as u32;
         let config = Config {
             cases: per,
